@@ -1,7 +1,7 @@
 from . import COMMON_TB, NOTE
 
 PROP = {
-    "modules": ["Proofs.C05", "Proofs.C05E2E", "Proofs.C05Spell"],
+    "modules": ["Proofs.C05", "Proofs.C05E2E", "Proofs.C05Spell", "Proofs.C05Verbatim"],
     "streams": [{"name": "scan"}, {"name": "val", "shards": 2}, {"name": "verbatim"}],
     "rule": "scan: under the DEFAULT delimiters every string of length<=5 (quick) / 6 (thorough) over { } % - \" space newline a, "
             "harvested test templates and their mutants, random bytes / UTF-8 / delimiter-dense sources up to 64 KiB (start "
@@ -18,7 +18,13 @@ PROP = {
             "string / []byte / drop of a string holding tag-like text, arbitrary bytes and HTML/URL metacharacters; a body is up "
             "to 5 (4) tag-like bits (objects, tags, trim markers, LONE `{{` `}}` `{%` `%}`, syntax errors, `{% raw %}`, "
             "`{% comment %}`), kept as drawn - delimiters are no longer stripped or balanced - and redrawn only when it contains the "
-            "substring endraw resp. endcomment",
+            "substring endraw resp. endcomment; the neighbour-hyphen family (fixed, shard 0): 44 shapes in which the hyphen of a NEIGHBOUR "
+            "stands next to a value or a raw body with white space at its edges - neighbours: object, assign, if / elsif / else / unless, "
+            "case / when / else, for (body, else, break, continue), tablerow, capture (hyphens inside the body, and the captured text printed "
+            "between hyphens), comment, cycle, another raw block; values: string, []byte, drop, pointer, []any and []string (several Write "
+            "calls), nested arrays, an array with empty strings and nil, a value that is only white space, NBSP / EM SPACE at the edges, a "
+            "filter result, a string literal, empty string and nil next to a value - and 6 controls (the object's OWN hyphens, literal text "
+            "between hyphen and value); each compared with the expected bytes and with the model",
     "trusted_base": COMMON_TB,
     "assumptions": ["the model's Scan/tokenRe describe parser/scanner.go: checked by the scan stream on every run - under the default "
                     "delimiters, and for raw/comment blocks also under << >> [ ] and { } {% %}; under other custom delimiters the token "
@@ -36,7 +42,22 @@ TEXT = {
               'parser keeps the source of every token that is not the endraw tag (raw_body_kept), inside a comment block the parser '
               'drops every token that is not the endcomment tag without handing it to the expression checker '
               '(comment_body_skipped), a string value is written as one write of its bytes without escaping (string_value_exact, '
-              'bytes/drop variants), nil prints nothing. End to end, about the whole pipeline `run` (tokenizer, block parser, '
+              'bytes/drop variants), nil prints nothing. No hyphen of a NEIGHBOUR reaches into a value or a raw body (Proofs.C05Verbatim; '
+              'objects and raw blocks write through trimWriter.WriteVerbatim since the repair fixes/verbatim-output-not-trimmed, modelled as '
+              'the operations Write "", Write b, Flush): from EVERY state of the trim writer - any text pending, a right trim armed or not - '
+              'an object whose value is printed as at least one chunk, resp. a raw node with at least one slice, lets the pending text out '
+              'unchanged, then its own bytes unchanged, and leaves nothing pending and no trim armed (object_writes_value_verbatim, '
+              'raw_writes_body_verbatim; string_value_written_verbatim for a variable bound to a string); for ALL trees A and B, whatever '
+              'hyphens they hold, every context and start state: if A ends normally having written outA and leaving the text p pending, the '
+              'sequence A ++ [object] ++ B puts out outA, p unchanged, the bytes of the value unchanged and contiguous, and then exactly what B '
+              'renders from an EMPTY trim writer with the variables A left, and ends as B ends (value_bytes_not_trimmed; raw_bytes_not_trimmed '
+              'for a raw node); for whole templates: Render of A ++ [object] ++ B is the output of A rendered on its own, the bytes of the '
+              'value, the output of B rendered on its own from the variables A left (value_bytes_not_trimmed_root, raw_bytes_not_trimmed_root); '
+              'directly between a right and a left trim marker (string_value_between_hyphens, raw_body_between_hyphens); from source bytes, for '
+              'every value layer, every output layer that prints a string as its bytes, file system and environment binding x and s to ANY '
+              'byte strings xv and sv: `{{ x -}}{{ s }}` renders xv ++ sv, `{{ s }}{{- x }}` renders sv ++ xv, `{{ x -}}{% raw %}  y{% endraw %}` '
+              'renders xv, two blanks, y (value_after_right_hyphen_source, value_before_left_hyphen_source, raw_after_right_hyphen_source; the '
+              'three former counterexamples are evaluated examples with the standard layers). End to end, about the whole pipeline `run` (tokenizer, block parser, '
               'compiler, renderer, fault-free writer) for every value layer, configuration, file system, start line and '
               'environment: a source in which neither configured opening delimiter occurs renders to exactly itself, the empty '
               'source included (source_without_open_delim_renders_itself); `run` is the tokenizer followed by `runTokens` '
@@ -69,9 +90,16 @@ TEXT = {
               'harness and model (nothing is printed); the `verbatim` stream renders '
               'text / raw / comment / string-value templates on the real engine (default delimiters), compares them with the model '
               'and checks byte equality with the source pieces - its string-value cases (string, []byte, drop of a string) are where '
-              'printing by the real writeObject is exercised under this property.'),
+              'printing by the real writeObject is exercised under this property; a fixed family of 50 shapes puts a value or a raw body '
+              'with white space at its edges next to a neighbour\'s hyphen (see the rule).'),
     "design_ref": 'DESIGN.md 6 C05',
-    "note": NOTE + ('The deviation recorded earlier (K-C05-raw-unclosed-delimiter, K-C05-comment-unclosed-delimiter: an opening delimiter '
+    "note": NOTE + ('The deviation K-C05-value-trimmed-by-neighbour-hyphen / K-C05-raw-trimmed-by-neighbour-hyphen (the trim writer trims the '
+              'output stream, so the hyphen of a NEIGHBOUR stripped white space at the edge of a value or of a raw body) is repaired by '
+              'fixes/verbatim-output-not-trimmed (ObjectNode.render and RawNode.render write through trimWriter.WriteVerbatim); the theorems of '
+              'Proofs.C05Verbatim state what it made false. They need at least one chunk / slice: a nil value and a raw block without body write '
+              'nothing, and then a pending right trim stays pending for what follows (nothing of theirs can be stripped). An EMPTY string value is one empty chunk: it drops a '
+              'pending right trim like every value. The source-level forms are three fixed templates with arbitrary bound strings; for arbitrary '
+              'templates the statement is the tree-level one. The deviation recorded earlier (K-C05-raw-unclosed-delimiter, K-C05-comment-unclosed-delimiter: an opening delimiter '
               'left unclosed inside a raw/comment body took the end tag\'s closer) is repaired in /repo by e30377e '
               '(fixes/raw-comment-lexical); its inputs are six fixed cases of the verbatim stream on every run, evaluated examples in '
               'Proofs/C05Spell.lean, and bodies of the same kind are enumerated by the scan family. Remaining side conditions of the byte-level theorems '
